@@ -123,6 +123,14 @@ fn fnv64(s: &str) -> u64 {
     h
 }
 
+fn fnv_bytes(b: &[u8]) -> u64 {
+    let mut h: u64 = 0xcbf29ce484222325;
+    for x in b {
+        h = (h ^ *x as u64).wrapping_mul(0x100000001b3);
+    }
+    h
+}
+
 fn big(s: String) -> String {
     if s.len() > 4000 {
         format!("#{}:{}", fnv64(&s), s.len())
@@ -939,8 +947,8 @@ fn pkg(path: &str) -> i32 {
     }
     out.flush().unwrap();
     eprintln!(
-        "summary decode=ok bytes={} reencode_identical={} functions={} bodies={} distinct_bodies={} instructions={} rewritten_identical={} rewrite_bad={} reader_panics={} max_code={} max_pool={} max_operand={} max_jump={}",
-        bytes.len(), same, program.functions.len(), nbody, seen.len(), ninstr, nrewritten, rewrite_bad.len(), reader_panics.len(), max_code, max_pool, max_reg, max_jump
+        "summary decode=ok bytes={} re={}:{} reencode_identical={} functions={} bodies={} distinct_bodies={} instructions={} rewritten_identical={} rewrite_bad={} reader_panics={} max_code={} max_pool={} max_operand={} max_jump={}",
+        bytes.len(), fnv_bytes(&again), again.len(), same, program.functions.len(), nbody, seen.len(), ninstr, nrewritten, rewrite_bad.len(), reader_panics.len(), max_code, max_pool, max_reg, max_jump
     );
     for b in rewrite_bad.iter().take(5) { eprintln!("rewrite_bad {}", b); }
     for b in reader_panics.iter().take(5) { eprintln!("reader_panic {}", b); }
@@ -1002,7 +1010,7 @@ fn damage(path: &str, seed: u64, step: usize, flips: usize, from: usize) -> i32 
                     Ok(p2) => bincode::encode_to_vec(&p2, cfg()).expect("encode") == again,
                     Err(_) => false,
                 };
-                format!("ok same_bytes={} stable={}", again == b, stable)
+                format!("ok same_bytes={} stable={} re={}:{}", again == b, stable, fnv_bytes(&again), again.len())
             }
             Err(e) => format!("err {}", e.replace('\n', " ").chars().take(60).collect::<String>()),
         }));
